@@ -12,20 +12,28 @@ Definition config_of_jv (v : jv) : config :=
 Definition arrival_of_jv (v : jv) : arrival :=
   let l := as_arr v in (as_int (nth 0 l JNull), as_str (nth 1 l JNull), as_str (nth 2 l JNull)).
 
+Definition lop_of_jv (v : jv) : lop :=
+  let l := as_arr v in
+  match nth 1 l JNull with
+  | JStr _ => LArr (arrival_of_jv v)
+  | _ => LCleanup (as_int (nth 0 l JNull))       (* [t] alone = a cleanup at time t *)
+  end.
+
 (* decisions and, after each arrival, the lengths of the (addr,cmd) and (global,cmd) deques *)
-Fixpoint run_obs (dstep : list rule -> list Z -> Z -> bool * list Z) (cfg : config) (s : lstate)
-         (arr : list arrival) : list jv :=
-  match arr with
+Fixpoint run_obs (dstep : list rule -> list Z -> Z -> bool * list Z) (clean : bool) (cfg : config) (s : lstate)
+         (ops : list lop) : list jv :=
+  match ops with
   | [] => []
-  | (t, a, c) :: r =>
+  | LArr (t, a, c) :: r =>
       let '(lim, s') := is_limited_gen dstep cfg s a c t in
       JArr [JBool lim; JInt (Z.of_nat (length (get_deque (a, c) s')));
             JInt (Z.of_nat (length (get_deque (g_global, c) s')))]
-      :: run_obs dstep cfg s' r
+      :: run_obs dstep clean cfg s' r
+  | LCleanup t :: r => run_obs dstep clean cfg (if clean then cleanup cfg t s else s) r
   end.
 
 Definition run_c18 (v : jv) : jv :=
-  JArr (run_obs deque_step (config_of_jv (jfield "cfg" v)) [] (map arrival_of_jv (as_arr (jfield "arrivals" v)))).
+  JArr (run_obs deque_step true (config_of_jv (jfield "cfg" v)) [] (map lop_of_jv (as_arr (jfield "arrivals" v)))).
 
 (* ---- the executable statement ---- *)
 (* the rule list governing the (addr, cmd) deque: the specific-address list if there is one, else "ip" *)
@@ -43,6 +51,8 @@ Definition deque_bound (rules : list rule) : option Z :=
                            then match acc with Some b => Some (Z.min b (2 * snd r)) | None => Some (2 * snd r) end
                            else acc) None rules.
 
+Fixpoint arrivals_of (ops : list lop) : list arrival :=
+  match ops with [] => [] | LArr a :: r => a :: arrivals_of r | LCleanup _ :: r => arrivals_of r end.
 Fixpoint check_obs (cfg : config) (arr : list arrival) (spec_dec : list bool) (obs : list jv) : pystr :=
   match arr, spec_dec, obs with
   | (t, a, c) :: ar, sd :: sr, o :: orest =>
@@ -61,9 +71,10 @@ Fixpoint check_obs (cfg : config) (arr : list arrival) (spec_dec : list bool) (o
 (* case: {cfg, arrivals, obs = implementation observations in the format of run_c18} *)
 Definition holds_c18 (v : jv) : jv :=
   let cfg := config_of_jv (jfield "cfg" v) in
-  let arr := map arrival_of_jv (as_arr (jfield "arrivals" v)) in
-  let sd := fst (spec_run cfg [] arr) in
-  JStr (check_obs cfg arr sd (as_arr (jfield "obs" v))).
+  let ops := map lop_of_jv (as_arr (jfield "arrivals" v)) in
+  (* the specification keeps the full log: a cleanup is a no-op for it *)
+  let sd := fst (run_ops spec_step false cfg [] ops) in
+  JStr (check_obs cfg (arrivals_of ops) sd (as_arr (jfield "obs" v))).
 
 Definition interval_c18 (v : jv) : jv :=
   match interval_of (as_str v) interval_table with Some z => JInt z | None => JNull end.
